@@ -35,6 +35,10 @@ def proto_cmd(a, obs=None):
         if "rkind" in a:
             words = {"cur": " wr%d" % a["rtag"], "old": " wr%d" % a["rtag"], "unsent": " wr%d" % a["rtag"], "nobit": " wn%d" % a["rtag"], "unknown": " wu", "short": ""}[a["rkind"]]
         return "inject %d %s%s" % (a["p"], "-" if a.get("short") else a["m"], words)
+    if k in ("dial", "dfail", "lclose", "dclose", "close", "probe"):
+        return k
+    if k == "reject":
+        return "reject %d" % (1 if a["on"] else 0)
     if k in ("peer_close", "pipe_close"):
         return "%s %d" % (k, a["p"])
     if k == "setopt":
